@@ -305,3 +305,15 @@ lp:
   %l = landingpad { i8*, i32 } cleanup
   ret void
 }
+;;; ATOM global/adjacent-backslashes
+source_filename = "\\\\server\\share\\a.c"
+$"c\\\\d" = comdat any
+@"n\\\\m" = global [4 x i8] c"\\\\a\5C", section "s\5C\5Ct", comdat($"c\\\\d"), !tag !0
+@tail = global [3 x i8] c"a\\\\"
+@three = global [3 x i8] c"\5C\\\5C"
+define void @"f\\\\"() {
+  call void asm sideeffect "nop \\\\ x", "~{dirflag}\\\\"()
+  ret void
+}
+!0 = !{!"m\\\\d", !"\5C\5C\5C\5C"}
+!k\5C\5C = !{!0}
